@@ -265,6 +265,11 @@ class CallMixin:
             return self.raw_op(recv, kind, t[3], args, kwargs, node)
         if h == "fn":
             f = self.M.funcs[t[1]]
+            if len(t) > 2 and t[2] == "raw":
+                # the undecorated function, called by its decorator's wrapper: a method takes its receiver first
+                if f.cls is not None and f.deco != "staticmethod" and args:
+                    return self.call_function(f, args[0], args[1:], kwargs, node, None, raw=True)
+                return self.call_function(f, None, args, kwargs, node, None, raw=True)
             return self.call_function(f, None, args, kwargs, node, None)
         if h == "cls":
             return self.construct(t[1], args, kwargs, node)
@@ -387,7 +392,26 @@ class CallMixin:
             env[a.kwarg.arg] = V(("dict", tuple((("const", k), v.t) for k, v in sorted(rest.items()))), [py("dict")])
         return env
 
-    def call_function(self, f, selfv, args, kwargs, node, concrete, closure=None):
+    def repo_decorators(self, f):
+        """decorators of f that are functions of the analysed package (property / setter / classmethod ... are the model's)"""
+        out = []
+        for d in getattr(f.node, "decorator_list", ()):
+            if isinstance(d, ast.Name):
+                r = self.M.module_member(f.module.name, d.id)
+                if r is not None and r[0] == "func":
+                    out.append(r[1])
+        return out
+
+    def call_function(self, f, selfv, args, kwargs, node, concrete, closure=None, raw=False):
+        if not raw and closure is None and f.qual not in self.cfg.opaque:
+            decos = self.repo_decorators(f)
+            if decos and not any(fr.func is f for fr in self.frames):
+                # a function wrapped by a decorator of the package: call what the decorator returns (the wrapper calls the
+                # undecorated function through the value it was handed)
+                fv = V(("fn", f.qual, "raw"), [("fn", f.qual)])
+                for dfn in reversed(decos):
+                    fv = self.call_function(dfn, None, [fv], {}, node, None)
+                return self.call_value(fv, ([selfv] if selfv is not None else []) + list(args), kwargs, node)
         if self.cfg.no_inline and self.frames and self.frames[-1].func is not None and closure is None:
             return self.opaque_call(f, selfv, args, kwargs, node, raises=False)
         if f.qual in self.cfg.opaque or (f.module.name in self.cfg.opaque_modules and f.cls is None
